@@ -6,6 +6,9 @@ Tie (two drives of the REAL code, both compared inside Coq with Overflow.run_val
   * end to end: generated FLEX files (one per rank and job) through Acelyzer(...).run() with the default
     profile, reading args.TS1..TS5 / OVC / TSxOF of the exported slices (identified by args.uid) — this covers the
     placement of pipeline_barrier between the two phases and every later stage that could touch the counters.
+    Option sets of these runs: default, --keep_prep, -M, -t, --ignore_crit, --tb and --flex_ts_fix (README
+    troubleshooting option; registers two more stages between the phases) combined with those; four of five job files
+    carry an 'AIU Roundtrip' host slice that encloses the job's device slices.
   * names: NormalizationContext._get_ref_ts and the '"Cmpt Exec" in name' test vs Overflow.name_val.
 Oracle (independent of the model): the generator keeps the true 64-bit counters; per rank the set
 {TSk' - ck} over all slices and all k must be ONE multiple of 2^32, each slice non-decreasing and congruent to its
@@ -17,6 +20,7 @@ import glob
 import hashlib
 import io
 import json
+import math
 import os
 import random
 import shutil
@@ -44,7 +48,9 @@ MANIFEST = {
             "C05_two_phase/C05_pipeline_consistent: on Pipeline.v's operational EventProcessor semantics the "
             "registrations normalize_phase1 / pipeline_barrier / normalize_phase2 (one shared context) compute that "
             "two-phase function. The model is tied to the code on every run by direct drive of "
-            "normalize_phase1/phase2 and end to end through Acelyzer (vm_compute inside coqc, exact integers).",
+            "normalize_phase1/phase2 and end to end through Acelyzer (vm_compute inside coqc, exact integers); the "
+            "end-to-end runs go over the option sets default / --keep_prep / -M / -t / --ignore_crit / --tb and "
+            "--flex_ts_fix combined with them, on job files with and without an enclosing 'AIU Roundtrip' host slice.",
     "note": "Print Assumptions: closed under the global context for all seven theorems. Trusted: Coq kernel + "
             "vm_compute; the hand-written model is tied by differential testing only (exact-grid stream f=2^k, plus an "
             "off-grid stream whose reference counters keep 2^16 cycles from a wrap so that double rounding cannot move "
@@ -53,7 +59,10 @@ MANIFEST = {
             "excludes, via fguard, exactly the inputs on which frequency_stats divides by zero (Exec slice of "
             "duration 0; until /repo fix C02d also one at the host time of the rank's previous Exec slice) - the code raises ZeroDivisionError "
             "there and so does the model; C05_two_phase is stated for exception-free runs and for the three stages "
-            "alone (the other stages of the pipeline are covered by the end-to-end tie only).",
+            "alone (the other stages of the pipeline are covered by the end-to-end tie only). Excluded with "
+            "--flex_ts_fix: jobs whose 'AIU Roundtrip' does not enclose their device slices (non-zero job offset) - "
+            "the option then moves the host ts of the job's device slices away from their counters before phase 2 "
+            "counts the epochs, which leaves the property's hypothesis 'host timestamps agree with the counters'.",
     "technique": "Coq proof (induction over the event list with a table invariant; lia with euclidean division; "
                  "field/Qfloor bridge) + vm_compute correspondence against normalize_phase1/2 and Acelyzer end to end",
     "design_ref": "DESIGN.md section 4/C05, section 6/F1 (fixed by f6a56e9), design-spikes/overflow_lia.v, overflow_qfloor.v",
@@ -77,6 +86,10 @@ ASSUMPTIONS = [
     "ingestion removes such slices before they get there)",
     "host timestamps are >= 0 (default event limiter) and events are X slices (B/E pairs are C15's business)",
     "default or 'everything' profile (the barrier between the phases is enabled); --tb/torch_minimal disables it",
+    "with --flex_ts_fix: every job's 'AIU Roundtrip' host slice (if it has one) encloses the job's device slices in "
+    "host time, i.e. the job offset is 0; a job outside its Roundtrip is excluded (not generated, not judged) because "
+    "the option itself ('experimental per-job time-stamp adjustment', 'might cause unreliable data') then moves the "
+    "host ts of the device slices away from their counters between phase 1 and phase 2",
 ]
 
 W = 1 << 32
@@ -122,9 +135,55 @@ def mk_dev(uid, pid, name, cs, f, H, rng=None, job=0, dur=None):
             "tsx": tsx_from_truth(cs, rng), "truth": list(cs), "uid": uid, "job": job, "H": H}
 
 
-def mk_host(uid, pid, ts, dur=1.0, ph="X", job=0, name="host op"):
-    return {"ph": ph, "pid": pid, "name": name, "ts": ts, "dur": dur, "tsx": [], "truth": None, "uid": uid,
-            "job": job}
+def mk_host(uid, pid, ts, dur=1.0, ph="X", job=0, name="host op", tid=None):
+    e = {"ph": ph, "pid": pid, "name": name, "ts": ts, "dur": dur, "tsx": [], "truth": None, "uid": uid,
+         "job": job}
+    if tid is not None:
+        e["tid"] = tid
+    return e
+
+
+# ---------------------------------------------------------------- host-side job slices ('AIU Roundtrip')
+# A FLEX file (= one job of one rank) normally carries one host slice 'AIU Roundtrip' around the device work of the
+# job.  The README's troubleshooting option --flex_ts_fix compares it with the host-time range of the job's device
+# slices.  Nothing below says what the tool does with it: the property is about TS1..TS5 / OVC only.
+RT = "AIU Roundtrip"
+
+
+def job_windows(case):
+    """per (pid, job): [device window (lo, hi) | None, host window of the job's Roundtrip slices (lo, hi) | None]"""
+    out = {}
+    for e in case["events"]:
+        if e["ph"] != "X":
+            continue
+        w = out.setdefault((e["pid"], e.get("job", 0)), [None, None])
+        k = 0 if e["truth"] is not None or e["tsx"] else 1 if e["name"] == RT else None
+        if k is None:
+            continue
+        lo, hi = e["ts"], e["ts"] + e["dur"]
+        w[k] = (lo, hi) if w[k] is None else (min(w[k][0], lo), max(w[k][1], hi))
+    return out
+
+
+def jobs_outside_roundtrip(case):
+    """the (pid, job) pairs whose Roundtrip slice does not enclose the job's device slices in host time"""
+    return sorted(k for k, (dev, rt) in job_windows(case).items()
+                  if dev is not None and rt is not None and not (rt[0] <= dev[0] and dev[1] <= rt[1]))
+
+
+def e2e_facts(case):
+    """discriminating facts of an end-to-end run for failure signatures (input-derived)"""
+    if case.get("kind") != "e2e":
+        return {}
+    return {"flex_ts_fix": "--flex_ts_fix" in case.get("opts", [])}
+
+
+def moved_by_option(case):
+    """Outside C05's hypothesis: with --flex_ts_fix a job whose Roundtrip does not enclose its device slices has a
+    non-zero job offset, and the option moves the host ts of that job's device slices away from their counters before
+    the epochs are counted ('experimental per-job time-stamp adjustment ... might cause unreliable data').  Such runs
+    are not generated; a replayed one is not judged."""
+    return bool(case.get("kind") == "e2e" and "--flex_ts_fix" in case.get("opts", []) and jobs_outside_roundtrip(case))
 
 
 def to_dict(e, jobhash, use_attr=False):
@@ -161,6 +220,19 @@ def project(d, orig_args=None):
             if a.get(key) != _after_hex(orig_args.get(key)) and a.get(key) != orig_args.get(key):
                 return ["untouched-event-changed", key, str(a.get(key))]
     return None
+
+
+def project_e2e(x):
+    """exported slice -> [TS1..TS5, OVC, TSxOF]; a slice that carries the five counters but no OVC is still read
+    (OVC None), so that the oracle can state the property on the counters themselves"""
+    p = project(x)
+    if p is None:
+        a = x.get("args", {})
+        try:
+            return [[int(a[f"TS{k}"]) for k in range(1, 6)], None, None]
+        except (KeyError, ValueError, TypeError):
+            return None
+    return p
 
 
 def _after_hex(v):
@@ -277,7 +349,7 @@ def drive_e2e(case, workdir=None):
             if e["truth"] is None and not e["tsx"]:
                 slots.append(None)
             elif len(xs) == 1:
-                slots.append(project(xs[0]))
+                slots.append(project_e2e(xs[0]))
             elif not xs:
                 slots.append("missing")
             else:
@@ -399,7 +471,7 @@ def model_input(case):
 def valid(case):
     """inside the property's hypotheses and the code's division guard?"""
     last_exec, hs = {}, {}
-    if case["f"] <= 0:
+    if case["f"] <= 0 or moved_by_option(case):
         return False
     for e in case["events"]:
         if e["ts"] + e["dur"] < 0:
@@ -442,8 +514,10 @@ def oracle(case, obs):
         return []
     fails = []
 
+    facts = e2e_facts(case)
+
     def fail(sig, expected, observed):
-        fails.append({"input": case, "expected": expected, "observed": observed, "signature": sig})
+        fails.append({"input": case, "expected": expected, "observed": observed, "signature": dict(sig, **facts)})
     if isinstance(obs, enc.Err):
         fail({"kind": "exception_on_valid_trace", "exception": obs.tag, "drive": case.get("kind", "direct")},
              "no exception: every slice corrected", repr(obs))
@@ -495,7 +569,8 @@ def oracle(case, obs):
             (cst,) = consts.keys() if consts else (0,)
             for e, o in lst:
                 if cst % W == 0 and o[1] != e["truth"][0] // W + cst // W:
-                    fail({"kind": "ovc_inconsistent", "phase": phase_of(e["name"]), "wrap": wrap_category(e)},
+                    fail({"kind": "ovc_missing" if o[1] is None else "ovc_inconsistent",
+                          "phase": phase_of(e["name"]), "wrap": wrap_category(e)},
                          e["truth"][0] // W + cst // W, o[1])
                     break
         # ordering by corrected counters = ordering by true device time (all pairs, all counters)
@@ -599,6 +674,42 @@ def gen_rank(r, pid, f, H, uid0, n_kernels, on_grid, jobs=1, e2e=False):
     return evs, uid
 
 
+def add_roundtrips(r, evs, uid, f):
+    """one 'AIU Roundtrip' host slice per job file (four in five), enclosing the host-time window of the job's device
+    slices as in a well-aligned trace (job offset 0; see moved_by_option for the other pictures).  All times stay on
+    the 2^-10 us grid of the exact stream; the margins go from a fraction of a microsecond to more than a period."""
+    span = W / f
+    out = []
+
+    def dist():
+        k = r.random()
+        if k < 0.15:
+            return 0.0                                                  # flush with the first / last device slice
+        if k < 0.6:
+            return r.randint(1, 1 << 16) / 1024.0                      # up to 64 us
+        if k < 0.85:
+            return r.randint(1 << 16, 1 << 24) / 1024.0                # up to 16 ms
+        return r.choice([span / 2, span - 1.0, span, span + 3.5, 2 * span + 0.25]) + r.randint(0, 4096) / 1024.0
+
+    for (pid, job), (dev, _) in sorted(job_windows({"events": evs}).items()):
+        if dev is None or r.random() < 0.2:
+            continue
+        lo, hi = dev
+        t0 = math.floor((lo - min(dist(), lo)) * 1024) / 1024.0       # rounded down / up: still encloses
+        t1 = math.ceil((hi + dist()) * 1024) / 1024.0
+        out.append(mk_host(uid, pid, t0, dur=t1 - t0, job=job, name=RT, tid=1))
+        uid += 1
+    return out, uid
+
+
+E2E_OPTS = [[], ["--keep_prep"], ["--keep_prep", "-M"], ["-t"], ["--keep_prep", "--ignore_crit"],
+            ["--tb"], ["--tb", "--keep_prep"],
+            # the README's troubleshooting option for misaligned device events (registers two more stages between
+            # the normalisation phases); with the option sets above
+            ["--flex_ts_fix"], ["--flex_ts_fix", "--keep_prep"], ["--flex_ts_fix", "--keep_prep", "-M"],
+            ["--flex_ts_fix", "-t"], ["--flex_ts_fix", "--tb"], ["--flex_ts_fix", "--keep_prep", "--ignore_crit"]]
+
+
 def gen_valid(r, on_grid=True, e2e=False, max_ranks=3, max_kernels=6):
     f = r.choice(GRID_F if on_grid else OFF_F)
     evs, uid = [], 0
@@ -612,6 +723,9 @@ def gen_valid(r, on_grid=True, e2e=False, max_ranks=3, max_kernels=6):
         jobs = r.choice([1, 1, 2])
         e1, uid = gen_rank(r, pid, f, H, uid, r.randint(1, max_kernels), on_grid, jobs=jobs, e2e=e2e)
         evs += e1
+    if e2e:
+        rts, uid = add_roundtrips(r, evs, uid, f)
+        evs += rts
     evs.sort(key=lambda e: e["ts"])
     if r.random() < 0.3:
         # out-of-order input (later epochs first): phase 1 has to move the reference epoch, and only the barrier
@@ -622,8 +736,7 @@ def gen_valid(r, on_grid=True, e2e=False, max_ranks=3, max_kernels=6):
             r.shuffle(evs)
     case = {"kind": "e2e" if e2e else "direct", "f": f, "ic": r.random() < 0.15, "events": evs}
     if e2e:
-        case["opts"] = r.choice([[], ["--keep_prep"], ["--keep_prep", "-M"], ["-t"], ["--keep_prep", "--ignore_crit"],
-                                 ["--tb"], ["--tb", "--keep_prep"]])
+        case["opts"] = list(r.choice(E2E_OPTS))
         case["ic"] = "--ignore_crit" in case["opts"]
         case["attr"] = r.random() < 0.3
     return case
@@ -763,13 +876,14 @@ def run(ctx):
     n_mal = ctx.pick(300, 3000)
     for _ in range(n_mal):
         cases.append(gen_malformed(r))
-    n_e2e = ctx.pick(300, 2000)
+    n_e2e = ctx.pick(500, 3000)
     for _ in range(n_e2e):
         cases.append(gen_valid(r, on_grid=True, e2e=True, max_ranks=3, max_kernels=4))
 
     terms, oracle_failures, seen, nontriv = [], [], set(), 0
     dist = {"drive": {}, "events_per_trace": {}, "ranks": {}, "freq": {}, "wraps_per_trace": {}, "errors": {},
-            "valid": 0, "malformed": 0, "on_grid": 0, "off_grid": 0, "e2e_opts": {}}
+            "valid": 0, "malformed": 0, "on_grid": 0, "off_grid": 0, "e2e_opts": {}, "e2e_job_roundtrip": {},
+            "e2e_flex_ts_fix_wraps_between_slices": 0}
     t_e2e = 0.0
     for case in cases:
         t0 = time.time()
@@ -794,6 +908,12 @@ def run(ctx):
         dist["on_grid" if case["f"] in GRID_F else "off_grid"] += 1
         if case.get("kind") == "e2e":
             _bump(dist["e2e_opts"], " ".join(case.get("opts", [])) or "(default)")
+            for dev, rt in job_windows(case).values():
+                if dev is not None:
+                    _bump(dist["e2e_job_roundtrip"], "none" if rt is None else "encloses"
+                          if rt[0] <= dev[0] and dev[1] <= rt[1] else "does_not_enclose")
+            if "--flex_ts_fix" in case.get("opts", []) and has_wrap(case):
+                dist["e2e_flex_ts_fix_wraps_between_slices"] += 1
     bad, extras, secs = coqrun.run_cases(
         "C05", COQ_IMPORTS, COQ_TY, "run_val", terms,
         prelude=NAMETAB.prelude(),
@@ -808,6 +928,8 @@ def run(ctx):
     # a mismatching valid case is a failing-input candidate too: the oracle already looked at it above
     shr = []
     kinds_seen = set()
+    # report the statements about the counters themselves before those about the OVC bookkeeping (stable)
+    oracle_failures.sort(key=lambda f: f["signature"]["kind"] in ("ovc_missing", "ovc_inconsistent"))
     for f in oracle_failures:
         kk = json.dumps(f["signature"], sort_keys=True)
         if kk in kinds_seen or len(shr) >= 3:
@@ -822,7 +944,8 @@ def run(ctx):
                 f"(non-zero OVC or a local correction): {extras.get('nt')}. Streams: corpus {n_corpus}; exhaustive grid "
                 f"{len(grid)} (3 slices x 5 phase kinds each x every wrap position among the 15 counters"
                 f"{' x second wrap position' if not ctx.quick() else ''}); random direct {n_direct} (20% off-grid); "
-                f"malformed {n_mal}; end to end {n_e2e}.",
+                f"malformed {n_mal}; end to end {n_e2e} (of which with --flex_ts_fix and >= 1 wrap: "
+                f"{dist['e2e_flex_ts_fix_wraps_between_slices']}).",
         "samples": [_strip(cases[j]) for j in (0, n_corpus + 7, n_corpus + len(grid) + 1, len(cases) - 1)],
         "mismatches": mism, "oracle_failures": shr,
         "ties": [{"name": "Overflow.run_val = normalize_phase1 ; normalize_phase2 (direct) and Acelyzer (e2e)",
